@@ -2,9 +2,9 @@ package main
 
 import (
 	"fmt"
-	"regexp"
 	"go/ast"
 	"go/types"
+	"regexp"
 	"sort"
 	"strings"
 
@@ -18,9 +18,9 @@ var c07Scope = Scope{Include: []string{"pkg/"}}
 // derived readers that are deterministic expansions of values which themselves come from the caller's
 // randomness or from public data (each confirmed by reading)
 var derivedReaders = map[string]string{
-	"DERIVED:pkg/mpc/session.(*Context).Seeds":        "pairwise SHAKE streams agreed in session setup (PRZS zero shares are pseudorandom by design)",
-	"DERIVED:golang.org/x/crypto/blake2b.NewXOF":      "hash-to-field / key derivation: XOF over the input bytes, not a randomness source",
-	"DERIVED:pkg/transcripts/hagrid.cloneShake":       "transcript extraction reads from a forked sponge",
+	"DERIVED:pkg/mpc/session.(*Context).Seeds":   "pairwise SHAKE streams agreed in session setup (PRZS zero shares are pseudorandom by design)",
+	"DERIVED:golang.org/x/crypto/blake2b.NewXOF": "hash-to-field / key derivation: XOF over the input bytes, not a randomness source",
+	"DERIVED:pkg/transcripts/hagrid.cloneShake":  "transcript extraction reads from a forked sponge",
 }
 
 // ambient sources tolerated at exactly these sites (function key + callee)
